@@ -358,7 +358,16 @@ fn dkim_sign_fixed_time(message: &mut Message, dkim_config: &DkimConfig, timesta
         .duration_since(SystemTime::UNIX_EPOCH)
         .unwrap()
         .as_secs();
-    let headers = message.headers();
+    // The header section of the message ends with the headers of its MIME part
+    let mut headers = message.headers().clone();
+    if let Some(part_headers) = message.part_headers() {
+        for name in &dkim_config.headers {
+            if let Some(header) = part_headers.find_header(name) {
+                headers.insert_raw(header.clone());
+            }
+        }
+    }
+    let headers = &headers;
     let body_hash = Sha256::digest(dkim_canonicalize_body(
         &message.body_raw(),
         dkim_config.canonicalization.body,
